@@ -142,6 +142,16 @@ def generate(tier, seed, ctx):
         for v in (-1, 1 << 120, (1 << 120) - 1):
             b = builder_at(p, rng, 0, 0, [])
             p.call({'op': 'store_coins', 'obj': b, 'v': big(v)})
+        # an 8-bit signed workchain: -128..127 fit, everything else must be refused (object form and raw text form)
+        p = fresh()
+        for wc in (127, -128, 128, 255, 256, -129, 300, -1000):
+            for via in (None, 'str'):
+                b = builder_at(p, rng, rng.choice([0, 9]), 0, [])
+                c = {'op': 'store_address', 'obj': b, 'addr': {'kind': 'std', 'wc': wc, 'hash': [rng.getrandbits(8) for _ in range(32)], 'any': []}}
+                if via:
+                    c['via'] = via
+                    c['i'] = 0
+                p.call(c)
         # (c) loads at remaining lengths, three slice provenances
         reads = [({'what': 'uint', 'w': w}, w, 0) for w in (1, 8, 64, 256)] + [({'what': 'int', 'w': w}, w, 0) for w in (1, 8, 257)] + \
                 [({'what': 'bits', 'n': n}, n, 0) for n in (1, 9, 1023)] + [({'what': 'bytes', 'n': n}, 8 * n, 0) for n in (1, 32)] + \
@@ -264,6 +274,27 @@ def generate(tier, seed, ctx):
                     p.call({'op': 'end_cell', 'obj': b, 'new': c})
                 else:
                     p.cell_from_bits([1, 0], [t], plain=False)
+    # depth through a pruned branch: the branch records the depth of what it stands for; an ordinary cell above it is one deeper at
+    # level 0, whatever its depth at the top level is (the limit holds at every level)
+    for stored in (1021, 1022, 1023):
+        for mask in (1, 2):
+            y = bytes([1, mask]) + bytes(rng.getrandbits(8) for _ in range(32)) + stored.to_bytes(2, 'big')
+            try:
+                pb = Builder(type_=1)
+                pb.store_bytes(y)
+                pr = pb.end_cell()
+            except Exception:
+                continue
+            p = fresh()
+            t = p.adopt(pr)
+            b = builder_at(p, rng, 3, 0, [])
+            p.call({'op': 'store_ref', 'obj': b, 'ref': t})
+            c = p.next
+            r = p.call({'op': 'end_cell', 'obj': b, 'new': c})
+            if 'res' in r['out'] and not p.dead:
+                b2 = builder_at(p, rng, 1, 0, [])
+                p.call({'op': 'store_ref', 'obj': b2, 'ref': c})
+                p.call({'op': 'end_cell', 'obj': b2, 'new': p.next})
     # spec -> code: behaviours of the full-size TonBag machine chosen by TLC's simulation mode, INCLUDING calls whose guard is
     # false (StepRefuse: the call must be refused, its target is then forgotten), replayed call by call
     sims = ctx['mc'].get('bag_sim', [])
